@@ -32,11 +32,10 @@ def run(tier, seed):
     ctx = core.Ctx("C12", tier, seed, LEVEL)
     trace, srcs = [], {}
     for mode, cfg in (("type", "MC_C12_tq" if tier == "quick" else "MC_C12_tt"), ("member", "MC_C12_mq" if tier == "quick" else "MC_C12_mt")):
-        r = core.tlc("MC_C12", cfg, workers=12, timeout=3000)
-        if not r.ok:
-            raise core.ToolError(f"MC_C12/{cfg}: the write-out theorem fails on the specification, or TLC error:\n{r.stdout[-3000:]}")
-        ctx.add_tlc(r)
-        cases = [c for c in r.cases if c["s"] != c["s2"]]
+        # TLC proves the write-out theorem (invariant Equivalent) on every list while it enumerates them (cached by specification hash);
+        # the member-level thorough configuration has 943 596 lists: a seeded sample of 300 000 of them is expanded
+        allc = streams.tlc_cases(ctx, "MC_C12", cfg, 300000 if cfg == "MC_C12_mt" else None, seed)
+        cases = [c for c in allc if c["s"] != c["s2"]]
         inp = []
         for i, c in enumerate(cases):
             if mode == "type":
